@@ -156,6 +156,25 @@ fn key_of(tag: &str, op: &OpKind, leaves: &[LeafSpec], extra: u64) -> u64 {
     k.finish()
 }
 
+/// the per-property non-triviality rules for an admissible forward case
+pub fn fwd_nontrivial(op: &OpKind, dims: &[&[usize]], out: &[usize]) -> bool {
+    use OpKind::*;
+    match op {
+        Add | Sub | Mul | Div | Axpy(_) => dims[0] != dims[1],
+        Matmul { ta, tb, has_c } => {
+            let lead = dims[0].len() > 2 || dims[1].len() > 2;
+            numel(out) > 1 && numel(dims[0]) * numel(dims[1]) > 1 && (*ta || *tb || *has_c || lead)
+        }
+        Conv { .. } => {
+            let n = out.len();
+            out[n - 1] * out[n - 2] > 1 && dims[1][1] * dims[1][2] * dims[1][3] > 1
+        }
+        Sum(k) => *k >= 1 && numel(&dims[0][dims[0].len() - k..]) > 1,
+        Reshape(d) => &d[..] != dims[0],
+        _ => numel(out) > 1,
+    }
+}
+
 /// Forward value or refusal of one operation on fresh leaves.
 #[derive(Clone, Debug, Serialize, Deserialize)]
 pub struct FwdCase {
@@ -221,8 +240,7 @@ impl CaseKind for FwdCase {
             }
             Ok(t) => {
                 classes.push("expect:value".into());
-                let differs = self.leaves.iter().any(|l| l.dims != t.dims) || self.leaves.iter().any(|l| l.dims != self.leaves[0].dims);
-                let nontrivial = t.numel() > 1 && (differs || self.leaves.len() == 1);
+                let nontrivial = fwd_nontrivial(&self.op, &dims, &t.dims);
                 match got {
                     Err(p) => Outcome::fail(
                         "unexpected-panic",
